@@ -175,7 +175,64 @@ func ite(c, a, b Term) Term {
 	return app(a.Sort, "ite", c, a, b)
 }
 
-func sel(arr, idx Term, elem Sort) Term { return app(elem, "select", arr, idx) }
+// curDefs maps macro names to their definitions (set per VC; VC generation is sequential).
+var curDefs map[string]string
+var curVC *VC
+
+// sel builds (select arr idx), simplifying select-over-store when the indices are
+// syntactically equal, or syntactically distinct allocations / literals.
+func sel(arr, idx Term, elem Sort) Term {
+	a := arr.S
+	for depth := 0; depth < 64; depth++ {
+		if d, ok := curDefs[a]; ok {
+			a = d
+			continue
+		}
+		if !strings.HasPrefix(a, "(store ") {
+			break
+		}
+		i0 := len("(store ")
+		i1 := skipSexpr(a, i0)
+		i2 := skipSexpr(a, i1)
+		i3 := skipSexpr(a, i2)
+		if i3 != len(a)-1 {
+			break
+		}
+		base, ix, val := strings.TrimSpace(a[i0:i1]), strings.TrimSpace(a[i1:i2]), strings.TrimSpace(a[i2:i3])
+		if ix == idx.S {
+			if curVC != nil {
+				return curVC.name("sv", Term{val, elem})
+			}
+			return Term{val, elem}
+		}
+		if distinctRefs(ix, idx.S) {
+			a = base
+			continue
+		}
+		break
+	}
+	if a != arr.S && !strings.HasPrefix(a, "(") {
+		return app(elem, "select", Term{a, arr.Sort}, idx)
+	}
+	if a != arr.S && len(a) < len(arr.S) {
+		return app(elem, "select", Term{a, arr.Sort}, idx)
+	}
+	return app(elem, "select", arr, idx)
+}
+
+// distinctRefs: two index terms that certainly denote different values.
+func distinctRefs(a, b string) bool {
+	if a == b {
+		return false
+	}
+	isRef := func(s string) bool { return strings.HasPrefix(s, "ref!") || strings.HasPrefix(s, "mref!") }
+	if isRef(a) && isRef(b) {
+		return true
+	}
+	_, e1 := strconv.ParseInt(a, 10, 64)
+	_, e2 := strconv.ParseInt(b, 10, 64)
+	return e1 == nil && e2 == nil
+}
 func store(arr, idx, v Term) Term       { return app(arr.Sort, "store", arr, idx, v) }
 func arraySort(k, v Sort) Sort          { return Sort("(Array " + string(k) + " " + string(v) + ")") }
 func add(a, b Term) Term {
@@ -252,6 +309,7 @@ type VC struct {
 	assumed   map[string]bool
 	notes     []string
 	bounded   []Term // stack of bound variable names (informational)
+	defs      map[string]string
 	lets      map[string][]letDef // binder name -> let definitions made inside it
 	binders   []string            // stack of open binders
 }
@@ -266,8 +324,9 @@ func (vc *VC) openBinder(name string) {
 	vc.noName++
 }
 
-// closeBinder wraps body in the let-definitions made inside the binder.
-func (vc *VC) closeBinder(body Term) Term {
+// closeBinder wraps body in the let-definitions made inside the binder and
+// returns instantiation patterns: the array reads that mention the bound variable.
+func (vc *VC) closeBinder(body Term) (Term, []string) {
 	name := vc.binders[len(vc.binders)-1]
 	vc.binders = vc.binders[:len(vc.binders)-1]
 	vc.noName--
@@ -276,12 +335,96 @@ func (vc *VC) closeBinder(body Term) Term {
 	for i := len(ls) - 1; i >= 0; i-- {
 		s = "(let ((" + ls[i].name + " " + ls[i].expr + ")) " + s + ")"
 	}
-	return Term{s, body.Sort}
+	// expand let names inside candidate patterns
+	expand := func(t string) string {
+		for round := 0; round < 40 && strings.Contains(t, "l!"); round++ {
+			changed := false
+			for i := len(ls) - 1; i >= 0; i-- {
+				if strings.Contains(t, ls[i].name) {
+					nt := replaceToken(t, ls[i].name, ls[i].expr)
+					if nt != t {
+						t, changed = nt, true
+					}
+				}
+			}
+			if !changed || len(t) > 4000 {
+				break
+			}
+		}
+		return t
+	}
+	seen := map[string]bool{}
+	var pats []string
+	texts := []string{body.S}
+	for _, l := range ls {
+		texts = append(texts, l.expr)
+	}
+	for _, txt := range texts {
+		for i := 0; i+8 < len(txt); i++ {
+			if !strings.HasPrefix(txt[i:], "(select ") {
+				continue
+			}
+			j := skipSexpr(txt, i)
+			cand := expand(txt[i:j])
+			if len(cand) > 1500 || !strings.Contains(cand, name) || strings.Contains(cand, "l!") {
+				continue
+			}
+			bad := false
+			for _, op := range []string{"(ite ", "(forall ", "(exists ", "(and ", "(or ", "(not ", "(= ", "(< ", "(<= ", "(let ", "(=> ", "(> ", "(>= ", "(str."} {
+				if strings.Contains(cand, op) {
+					bad = true
+				}
+			}
+			if bad || seen[cand] {
+				continue
+			}
+			// keep only outermost reads (a pattern that contains another candidate subsumes it)
+			seen[cand] = true
+			pats = append(pats, cand)
+		}
+	}
+	// drop candidates that are proper subterms of other candidates
+	var keep []string
+	for _, p := range pats {
+		sub := false
+		for _, q := range pats {
+			if p != q && strings.Contains(q, p) {
+				sub = true
+			}
+		}
+		if !sub {
+			keep = append(keep, p)
+		}
+	}
+	if len(keep) > 6 {
+		keep = keep[:6]
+	}
+	return Term{s, body.Sort}, keep
+}
+
+func replaceToken(s, name, repl string) string {
+	var b strings.Builder
+	for i := 0; i < len(s); {
+		if strings.HasPrefix(s[i:], name) {
+			end := i + len(name)
+			if end == len(s) || !(s[end] >= '0' && s[end] <= '9') {
+				b.WriteString(repl)
+				i = end
+				continue
+			}
+		}
+		b.WriteByte(s[i])
+		i++
+	}
+	return b.String()
 }
 
 func newVC(e *Engine) *VC {
 	vc := &VC{eng: e, declared: map[string]bool{}, structs: map[string]*structInfo{}, structOf: map[string]*structInfo{},
 		typeIDs: map[string]int{}, typeByID: map[int]types.Type{}, nameLimit: 120, libUsed: map[string]bool{}, assumed: map[string]bool{}}
+	vc.defs = map[string]string{}
+	curDefs = vc.defs
+	curVC = vc
 	vc.decls = append(vc.decls,
 		"(declare-datatypes ((Slice 0)) (((mk-slice (s-arr Int) (s-off Int) (s-len Int) (s-cap Int)))))",
 		"(declare-datatypes ((Iface 0)) (((mk-iface (i-type Int) (i-val Int)))))")
@@ -363,9 +506,15 @@ func (vc *VC) name(prefix string, t Term) Term {
 		vc.lets[b] = append(vc.lets[b], letDef{n, t.S})
 		return Term{n, t.Sort}
 	}
-	c := vc.fresh(prefix, t.Sort)
-	vc.asserts = append(vc.asserts, "(= "+c.S+" "+t.S+")")
-	return c
+	vc.nfresh++
+	n := fmt.Sprintf("%s!%d", prefix, vc.nfresh)
+	// a macro, not a constant with a defining equation: the solvers see through it, so
+	// quantifier instantiation by matching still finds the terms
+	vc.asserts = append(vc.asserts, "\x00(define-fun "+n+" () "+string(t.Sort)+" "+t.S+")")
+	if strings.HasPrefix(t.S, "(store ") {
+		vc.defs[n] = t.S
+	}
+	return Term{n, t.Sort}
 }
 
 type engError struct{ msg string }
@@ -645,6 +794,18 @@ func (vc *VC) scriptOpt(upto int, path Term, goal Term, wantModel bool, dropQuan
 	}
 	for _, a := range vc.asserts[:upto] {
 		if dropQuant && (strings.Contains(a, "(forall ") || strings.Contains(a, "(exists ")) {
+			if strings.HasPrefix(a, "\x00(define-fun ") {
+				// keep the name, drop the quantified definition
+				rest := a[len("\x00(define-fun "):]
+				name, rest, _ := strings.Cut(rest, " () ")
+				end := skipSexpr(rest, 0)
+				b.WriteString("(declare-const " + name + " " + rest[:end] + ")\n")
+			}
+			continue
+		}
+		if strings.HasPrefix(a, "\x00") {
+			b.WriteString(a[1:])
+			b.WriteString("\n")
 			continue
 		}
 		b.WriteString("(assert ")
